@@ -43,6 +43,10 @@ pub enum ROp {
     WalkStorage(u8, u8),
     /// two iterators advanced alternately (walk and read_storage)
     TwoIters(u8, u8),
+    /// version() - a read-only method outside the listed ones
+    Version,
+    /// format!("{:?}", compound_file) - Debug::fmt takes &self as well
+    DebugFmt,
 }
 
 #[derive(Clone, Debug, Serialize, Deserialize)]
@@ -80,6 +84,8 @@ fn rop_strategy() -> BoxedStrategy<ROp> {
         3 => (0u8..14).prop_map(ROp::Walk),
         2 => (any::<u8>(), 0u8..8).prop_map(|(p, k)| ROp::WalkStorage(p, k)),
         2 => (any::<u8>(), 1u8..10).prop_map(|(p, k)| ROp::TwoIters(p, k)),
+        1 => Just(ROp::Version),
+        1 => Just(ROp::DebugFmt),
     ]
     .boxed()
 }
@@ -142,6 +148,12 @@ fn run_reader(c: &Cfb, script: &[ROp], tree_len: usize) -> Vec<RObs> {
             ROp::IsStream(i) => out.push(RObs::Bool(pick(*i).into(), "is_stream", c.is_stream(pick(*i)))),
             ROp::IsStorage(i) => out.push(RObs::Bool(pick(*i).into(), "is_storage", c.is_storage(pick(*i)))),
             ROp::RootEntry => out.push(RObs::Entry("/".into(), Ok(obs_entry(&c.root_entry())))),
+            ROp::Version => {
+                let _ = c.version();
+            }
+            ROp::DebugFmt => {
+                let _ = format!("{:?}", c);
+            }
             ROp::ReadStorage(i, k) => {
                 let p = pick(*i);
                 out.push(RObs::List(format!("read_storage {}", p), c.read_storage(p).map(|it| it.take(*k as usize).map(|e| obs_entry(&e)).collect()).map_err(|e| errkind(&e)), *k as usize));
@@ -514,7 +526,7 @@ pub fn def() -> PropDef {
     PropDef {
         id: "C14",
         level: "exploration",
-        rule: "case = tree of 6-11 entries (storage with 3 children and a nested storage) x 1-4 reader scripts of 3-15 read-only calls (entry, exists, is_stream, is_storage, root_entry, read_storage / read_root_storage / walk / walk_storage iterated partially, two iterators advanced alternately) x one stream-I/O script of 2-20 calls on up to 2 handles (read, write, seek, set_len, flush; buffer 1024 or default) x a generated schedule. Threads are real but run one at a time under a deterministic scheduler driven by the lock-observer hook; the lock is modelled with writer preference (std's policy on Linux) and a thread enters the real lock only when the model grants it. Oracles: no deadlock (no runnable thread while some are blocked), no acquisition while the thread already holds a guard (then the scheduler constructs the deadlocking schedule: I/O thread is run to its next write request), no panic in any thread, every reader result equals the model with each stream length being a length that stream had at an I/O call boundary, I/O results equal the byte-vector model. Non-trivial = the I/O thread requested the write lock while a reader held a read guard and some iterator was advanced >=4 steps (crosses a storage boundary); distinct = distinct case JSON.",
+        rule: "case = tree of 6-11 entries (storage with 3 children and a nested storage) x 1-4 reader scripts of 3-15 read-only calls (entry, exists, is_stream, is_storage, root_entry, read_storage / read_root_storage / walk / walk_storage iterated partially, two iterators advanced alternately, version(), Debug formatting of the compound file) x one stream-I/O script of 2-20 calls on up to 2 handles (read, write, seek, set_len, flush; buffer 1024 or default) x a generated schedule. Threads are real but run one at a time under a deterministic scheduler driven by the lock-observer hook; the lock is modelled with writer preference (std's policy on Linux) and a thread enters the real lock only when the model grants it. Oracles: no deadlock (no runnable thread while some are blocked), no acquisition while the thread already holds a guard (then the scheduler constructs the deadlocking schedule: I/O thread is run to its next write request), no panic in any thread, every reader result equals the model with each stream length being a length that stream had at an I/O call boundary, I/O results equal the byte-vector model. Non-trivial = the I/O thread requested the write lock while a reader held a read guard and some iterator was advanced >=4 steps (crosses a storage boundary); distinct = distinct case JSON.",
         assumptions: &["lock policy modelled: writer-preferring (library/std/src/sys/sync/rwlock/futex.rs); other policies are not explored", "schedules are sampled, not enumerated; the lock-discipline invariant makes re-entrancy detection schedule-independent"],
         quick_cases: 1500,
         thorough_cases: 20000,
